@@ -27,8 +27,8 @@ META = {
                  'C06_refuted_subclass_after_use', 'C06_refuted_base_used_first', 'C06_refuted_shared_nested',
                  'C06_refuted_nested_alone_first',
                  'C06_memo_sound_iff', 'C06_memo_inv', 'C06_memo_library_factors', 'C06_hist_inv_run', 'C06_hist_transparent_all',
-                 'C06_hist_transparent_partial', 'C06_hist_transparent_library', 'C06_hist_pure_outcome_partial', 'C06_hist_example', 'C06_product_transparent',
-                 'C06_memo_pyeq_refuted', 'C06_hist_refuted_pyeq_memo', 'C06_hist_refuted_shared_pattern',
+                 'C06_hist_transparent_library', 'C06_hist_pure_outcome', 'C06_hist_prefix_variant_partial', 'C06_hist_example', 'C06_product_transparent',
+                 'C06_memo_pyeq_refuted', 'C06_hist_refuted_pyeq_memo', 'C06_hist_prefix_variant_refuted',
                  'C06_learned_key_order_refuted', 'C06_pattern_object_memo_refuted'],
     'tables': [],
     'level_text': ('Theorems proved in Coq for ALL operation histories (any length, any classes, any Meta) of two executable state machines. '
@@ -39,10 +39,11 @@ META = {
                    'state (default-engine key cache, v1 key-resolution order incl. AUTO and aliases), Pattern objects shared between '
                    'classes, and a value-level memo with a parametric key equality: a general memo-soundness theorem (a memo is transparent '
                    'iff the memoised function factors through the key equivalence of its table), instantiated for the library (no value '
-                   'memo / exact keys: transparent over ALL histories, without side condition up to the type a ParseError names, fully '
-                   'where every Pattern object sits at positions of one type) and refuted for a memo keyed by Python ==/hash (1 == True == '
-                   '1.0), for a per-field learned key order and for a transform memoised on the Pattern object; the open finding F73 is '
-                   'refuted by a witness replayed on the implementation. The product of the two machines is transparent. Both models are '
+                   'memo / exact keys: FULLY transparent over ALL histories without any side condition - value, error class, class, field '
+                   'and the type an error names) and refuted for a memo keyed by Python ==/hash (1 == True == '
+                   '1.0), for a per-field learned key order and for a transform memoised on the Pattern object; the pre-fix variant of the machine '
+                   '(parsers re-targeting a shared Pattern object: finding F73, repaired by commit 38c6a1a) is proved transparent only up to the '
+                   'named type and refuted by a witness that is kept as a regression case. The product of the two machines is transparent. Both models are '
                    're-validated against the implementation on every run.'),
     'level_note': ('Trusted: Coq kernel + vm_compute; the hand-written state models (StateModel: default engine, int/str/nested-dataclass fields, '
                    'five Meta settings; HistValueModel: flat classes, both engines, key settings, aliases, shared Pattern objects, exact-typed '
@@ -1590,34 +1591,12 @@ def run_xmodel(ctx, hs, want, tag='xcases'):
     return out
 
 
-def strip_ty(text):
-    """outcome without the type a ParseError names"""
-    return text.split('@')[0] if text.startswith('eP') else text
-
-
-def f71_region(h, i):
-    """F73: a default-engine load of a class with a Pattern field whose Pattern OBJECT also sits at a position of another
-    date/time type somewhere in the history's definitions"""
-    o = h[i]
-    decl = {p['cid']: p for p in h[:i] if p['op'] == 'xdefine'}
-    d = decl.get(o.get('cid'))
-    if o['op'] != 'xload' or d is None or d['engine'] != 'd':
-        return False
-    pos = {}
-    for p in decl.values():
-        if p['engine'] == 'd':
-            for f in p['fields']:
-                if isinstance(f['t'], dict):
-                    pos.setdefault(f['t']['pat'], set()).add(f['t']['base'])
-    return any(isinstance(f['t'], dict) and len(pos.get(f['t']['pat'], ())) > 1 for f in d['fields'])
-
-
 def xfails(impl, alone, hh):
     j = len(hh) - 1
-    return impl[j] != alone[j] and not (f71_region(hh, j) and strip_ty(impl[j]) == strip_ty(alone[j]))
+    return impl[j] != alone[j]
 
 
-def xshrink(ctx, h, i, budget=12):
+def xshrink(ctx, h, i, budget=40):
     """smallest failing history found: first every PAIR (one earlier operation A, then the target B) in one batch, then
     greedy removal of single operations"""
     target = h[i]
@@ -1693,13 +1672,6 @@ def check_xhistories(ctx, label, named, model=True, model_frac=1.0):
         for i in sorted(alone[k]):
             if impl[k][i] == alone[k][i]:
                 continue
-            # inside the open region a changed outcome is the known finding only if it is what the faithful model
-            # predicts for today's tree (where the model was run: no difference up to this operation)
-            predicted = diff is None or i < diff[0]
-            known = (f71_region(h, i) and ctx.is_open_region(F73) and strip_ty(impl[k][i]) == strip_ty(alone[k][i]) and predicted)
-            if known:
-                ctx.hist('known_region', F73)
-                continue
             if reported >= 3:
                 continue
             reported += 1
@@ -1753,7 +1725,8 @@ def sample_strata(r, named, frac):
 
 
 def typed_witnesses():
-    """the Coq witness of F73 (coq/proofs/HistWitness.v h_f71 / o_f71) as a typed history"""
+    """the Coq witness of the pre-fix variant (F73, repaired by 38c6a1a; coq/proofs/HistWitness.v h_f71 / o_f71) as a typed
+    history: kept in every run as a regression case"""
     P = lambda b: {'pat': 1, 'fmt': PAT_FMTS[0], 'base': b}  # noqa
     z = XV('str', 'zz')
     return {F73: [xdef(1, [{'n': 'day', 't': P('date')}]), xdef(2, [{'n': 'at', 't': P('datetime')}]),
@@ -1763,14 +1736,6 @@ def typed_witnesses():
 def run_typed(ctx):
     quick = ctx.tier == 'quick'
     r = ctx.sub_rng('typed')
-    # listed finding of the typed region: replay its witness
-    for fid, h in typed_witnesses().items():
-        f = ctx.finding(fid)
-        if f is not None and f['status'] == 'open':
-            impl, alone, _ = run_xhistories(ctx, [h])
-            j = len(h) - 1
-            ctx.count(1, key='witness:' + fid)
-            ctx.known_finding(fid, still_fails=impl[0][j] != alone[0][j] and strip_ty(impl[0][j]) == strip_ty(alone[0][j]))
     check_pyeq(ctx)
     d1, d2, d3 = dim1_histories(), dim2_histories(), dim3_histories(small=quick)
     if quick:
@@ -1792,7 +1757,7 @@ def run_typed(ctx):
     d3b = dim3b_histories()
     if quick:
         d3b = [x for x in sample_strata(r, d3b, 0.3)]      # stratum = (first class's setting, second class's engine)
-    named = d1 + d2 + d3 + d3b
+    named = d1 + d2 + d3 + d3b + [('w:%s:x' % fid, h) for fid, h in typed_witnesses().items()]
     check_xhistories(ctx, 'C06t', named, model_frac=0.4 if quick else 1.0)
     # random typed histories
     rr = ctx.sub_rng('typed_random')
@@ -1887,7 +1852,7 @@ def replay(ctx, obj):
         for i in sorted(alone[0]):
             same = impl[0][i] == alone[0][i]
             print('op %d %s: in history %s | alone (pristine forked process) %s%s' % (i, h[i]['op'], impl[0][i], alone[0][i], '' if same else '   <-- differs'))
-            ok = ok and (same or (f71_region(h, i) and strip_ty(impl[0][i]) == strip_ty(alone[0][i])))
+            ok = ok and same
         return ok
     if obj.get('kind') == 'batch':
         solo = run_jobs(ctx, [obj['ops']], per_proc=1)[0][-1]
